@@ -1567,6 +1567,22 @@ impl<
 		}
 		for (update_name, update_res) in MultiResultFuturePoller::new(update_futures).await {
 			let update = update_res?;
+			// Writes of different updates may reach an asynchronous store in any order, or not at all.
+			// If an update is missing (it was still in flight, or its write failed, when we stopped)
+			// nothing after it was ever reported as persisted, and applying it would panic.
+			const LEGACY_CLOSED_CHANNEL_UPDATE_ID: u64 = u64::MAX;
+			if update.update_id != LEGACY_CLOSED_CHANNEL_UPDATE_ID
+				&& Some(update.update_id) != monitor.get_latest_update_id().checked_add(1)
+			{
+				log_error!(
+					self.logger,
+					"ChannelMonitorUpdate {} of monitor {} does not follow update {}, ignoring it and later updates",
+					update_name.as_str(),
+					monitor_key,
+					monitor.get_latest_update_id(),
+				);
+				break;
+			}
 			monitor
 				.update_monitor(&update, &self.broadcaster, &self.fee_estimator, &self.logger)
 				.map_err(|e| {
